@@ -1,7 +1,7 @@
 #!/venv/bin/python
 """Mechanical mutation sample: how many small code changes that the repository's tests accept do the checks reject?
 
-  tools/mutate.py gen  N [SEED]     - sample N single-token mutants of the functions the properties are anchored in,
+  tools/mutate.py gen  N [SEED] [OP ...] - sample N single-token mutants (optionally only of the given operators) of the functions the properties are anchored in,
                                       write them to /verif/seeded/mechanical/<id>.diff (+ index.json)
   tools/mutate.py run  [--only ID ...] [--jobs J] [--budget S]
                                     - for every mutant without a result: scratch worktree of /repo (outside /repo
@@ -38,7 +38,7 @@ TARGETS = {
     "infretis/setup.py": (["setup_config", "trim_data_file", "setup_internal", "setup_runner", "check_config"],
                           ["C06", "C08", "C17", "C05"]),
     "infretis/asyncrunner.py": (None, ["C17"]),
-    "infretis/core/tis.py": (None, ["C09", "C01", "C06", "C04"]),
+    "infretis/core/tis.py": (None, ["C09", "C06", "C04", "C01"]),
     "infretis/core/core.py": (["make_dirs", "write_ensemble_restart", "create_external"], ["C08", "C14"]),
     "infretis/classes/path.py": (None, ["C09", "C14", "C06", "C08"]),
     "infretis/classes/formatter.py": (["PathStorage", "OrderFormatter", "OrderPathFormatter", "PathExtFormatter",
@@ -138,13 +138,15 @@ def make_diff(path, src, cand):
     return d, old_line.strip(), lines[line - 1].strip()
 
 
-def gen(n, seed):
+def gen(n, seed, ops=None):
     os.makedirs(MDIR, exist_ok=True)
     rng = random.Random(seed)
     pool = []
     for path, (funcs, checks) in TARGETS.items():
         src, cands = candidates(path, funcs)
         for c in cands:
+            if ops and c[0] not in ops:
+                continue
             pool.append((path, c))
     rng.shuffle(pool)
     index_p = os.path.join(MDIR, "index.json")
@@ -258,7 +260,7 @@ if __name__ == "__main__":
     ap.add_argument("--budget", type=float, default=40)
     a = ap.parse_args()
     if a.cmd == "gen":
-        gen(int(a.args[0]), int(a.args[1]) if len(a.args) > 1 else 1)
+        gen(int(a.args[0]), int(a.args[1]) if len(a.args) > 1 else 1, a.args[2:] or None)
     elif a.cmd == "run":
         run(a.only, a.jobs, a.budget)
     else:
